@@ -80,7 +80,14 @@ func GetSortedTSignatures() []Sig {
 		if a.Frame > b.Frame {
 			return 1
 		}
-		return 0
+		// static/instance twins and overloads share method, class and frame
+		if a.IsStatic != b.IsStatic {
+			if !a.IsStatic {
+				return -1
+			}
+			return 1
+		}
+		return strings.Compare(a.Detail, b.Detail)
 	})
 
 	return sortedSignatures
@@ -112,7 +119,14 @@ func GetSortedTSignaturesByClass() []Sig {
 		if a.Frame > b.Frame {
 			return 1
 		}
-		return 0
+		// static/instance twins and overloads share method, class and frame
+		if a.IsStatic != b.IsStatic {
+			if !a.IsStatic {
+				return -1
+			}
+			return 1
+		}
+		return strings.Compare(a.Detail, b.Detail)
 	})
 
 	return sortedSignatures
